@@ -191,6 +191,18 @@ def check_object(g, d, thr, ctx, swapped=False):
         gw = np.asarray(groupwise(lambda s_, threshold, k: k * s_.cm(threshold).tp())(g, threshold=thr, k=3))
         exp = np.asarray([3 * pg_[..., 0, 0] for pg_ in per_group])
         require(np.array_equal(gw, exp), "grp:groupwise-callable", f"{ctx}")
+        # a metric whose result is integer-valued for some groups and fractional for others (a cell count
+        # with the usual 0.5 continuity correction where it is empty)
+        for ci, cell in enumerate(("tp", "fn", "fp", "tn")):
+            def corrected(s_, threshold, cell=cell):
+                c = getattr(s_.cm(threshold), cell)()
+                return c if np.all(c > 0) else c + 0.5
+
+            gw = np.asarray(groupwise(corrected)(g, threshold=thr), dtype=float)
+            cells = [pg_[..., ci // 2, ci % 2] for pg_ in per_group]
+            exp = np.asarray([c if np.all(c > 0) else c + 0.5 for c in cells], dtype=float)
+            require(gw.shape == exp.shape and np.array_equal(gw, exp), "grp:groupwise-callable",
+                    lambda: f"{ctx}: corrected {cell} count per group: {gw.tolist()} vs {exp.tolist()}")
 
 
 # ---------------------------------------------------------------------- clause: structure
